@@ -312,17 +312,30 @@ pub fn obscure_action(action: Obsc) -> ObscureAction {
 pub fn elide_via(env: &Envelope, targets: &BTreeSet<D>, revealing: bool, action: Obsc, entry: u64) -> Envelope {
     let set = to_lib_set(targets);
     let act = obscure_action(action);
-    let digests: Vec<Digest> = targets.iter().map(to_lib_digest).collect();
+    let mut digests: Vec<Digest> = targets.iter().map(to_lib_digest).collect();
+    // the array forms take a list, not a set: now and then it names a target twice (first or last) or comes reversed
+    if digests.len() >= 2 {
+        match entry / 12 % 4 {
+            1 => digests.insert(1, digests[0].clone()),
+            2 => {
+                digests.reverse();
+                digests.insert(0, digests[0].clone());
+            }
+            3 => digests.push(digests[0].clone()),
+            _ => {}
+        }
+    }
+    let single = targets.len() == 1;
     let providers: Vec<&dyn DigestProvider> = digests.iter().map(|d| d as &dyn DigestProvider).collect();
     let plain = matches!(action, Obsc::Elided);
     match entry % 12 {
         // the six generic entry points that take the mode as a flag
         6 => env.elide_set_with_action(&set, revealing, &act),
         7 => env.elide_array_with_action(&providers, revealing, &act),
-        8 if digests.len() == 1 => env.elide_target_with_action(&digests[0], revealing, &act),
+        8 if single => env.elide_target_with_action(&digests[0], revealing, &act),
         9 if plain => env.elide_set(&set, revealing),
         10 if plain => env.elide_array(&providers, revealing),
-        11 if plain && digests.len() == 1 => env.elide_target(&digests[0], revealing),
+        11 if plain && single => env.elide_target(&digests[0], revealing),
         1 => {
             if revealing {
                 env.elide_revealing_array_with_action(&providers, &act)
@@ -330,7 +343,7 @@ pub fn elide_via(env: &Envelope, targets: &BTreeSet<D>, revealing: bool, action:
                 env.elide_removing_array_with_action(&providers, &act)
             }
         }
-        2 if digests.len() == 1 => {
+        2 if single => {
             if revealing {
                 env.elide_revealing_target_with_action(&digests[0], &act)
             } else {
@@ -351,7 +364,7 @@ pub fn elide_via(env: &Envelope, targets: &BTreeSet<D>, revealing: bool, action:
                 env.elide_removing_array(&providers)
             }
         }
-        5 if plain && digests.len() == 1 => {
+        5 if plain && single => {
             if revealing {
                 env.elide_revealing_target(&digests[0])
             } else {
